@@ -102,6 +102,12 @@ def cases(tier, seed):
         out.append(dict(src=qasm2_program(rnd), family="random-qasm2"))
     for _ in range(n // 5):
         out.append(dict(src=qasm2_program(rnd, with_phase_gates=True), family="random-qasm2-with-rxx-rzz"))
+    # the short version header is a version-2 program as well
+    for k, c in enumerate(list(out)):
+        if k % 4 == 0:
+            out.append(dict(src=c["src"].replace("OPENQASM 2.0;", "OPENQASM 2;", 1), family="short-version-header"))
+    for st in NON_SUBSET[::3]:
+        out.append(dict(src="OPENQASM 2;\n" + H2.split("\n", 1)[1] + "qreg q[2];\ncreg c[2];\nh q[0];\n" + st + "\n", family="outside-the-subset"))
     for st in NON_SUBSET:
         out.append(dict(src=H2 + "qreg q[2];\ncreg c[2];\nh q[0];\n" + st + "\n", family="outside-the-subset"))
     return out
@@ -210,6 +216,12 @@ def direct(run, chk):
             if r.get("unroll") != "validation" and r.get("load") is None and nbad < 5:
                 nbad += 1
                 chk.violation("subset_%d" % nbad, {"kind": "program", "source": c["src"], "what": "a top-level statement outside the OpenQASM 2 subset is not rejected with ValidationError", "result": {k: v for k, v in r.items() if k != "text"}})
+            continue
+        if r.get("load") is not None:
+            if nbad < 5:
+                nbad += 1
+                chk.violation("load_%d" % nbad, {"kind": "program", "source": c["src"],
+                                                 "what": "a version-2 program is not loaded as a version-2 module: %s" % r["load"]})
             continue
         if "bad" not in r:
             continue
